@@ -11,20 +11,16 @@ subset of its page writes lost (power loss), any contents — decodes to the old
 namespace Nomt.C04
 open Nomt.Store
 
-/-- T4.10 **`hpre` for the concrete decoder** (power loss before the switch-over).  `checkPlacement img tr = ok` and
-`bbn_leaked = 0` ⇒ for EVERY prefix `p` of the events before the meta write, EVERY sub-list `sub` of `p` (the writes that
+/-- T4.10 **`hpre` for the concrete decoder** (power loss before the switch-over).  `checkPlacement img tr = ok` ⇒ for EVERY prefix `p` of the events before the meta write, EVERY sub-list `sub` of `p` (the writes that
 reached the device) and every image `B` carrying the old meta page whose `ln` / `bbn` differ from the pre-image at most on the
 pages written by `sub` (any contents, files possibly extended): `wfImage B` is `wfImage img` and `absImage B` is `absImage img`. -/
 theorem T4_10_pre_switchover_images_decode_to_old_state {img : Image} {tr : List IoEv} {stP : PlacementStats}
-    (h : checkPlacement img tr = .ok stP) {st : Stats} {lnM bbnM : Array UInt8}
-    (hd : wfDetailM img = .ok (st, lnM, bbnM)) (hleak : st.bbnLeaked = 0)
+    (h : checkPlacement img tr = .ok stP)
     (p sub : List IoEv) (hp : p <+: preMeta tr) (hsub : sub.Sublist p) (B : Image) (hmeta : B.metaF = img.metaF)
     (hln : Touched img.ln B.ln (writesOf "ln" sub)) (hbbn : Touched img.bbn B.bbn (writesOf "bbn" sub)) :
     wfImage B = wfImage img ∧ absImage B = absImage img ∧ absLeaves B = absLeaves img := by
-  obtain ⟨m, st', lnM', bbnM', _, hd', hkeep⟩ := C17.T17_7_accepted_trace_keeps_old_state h
-  have e : st' = st := by rw [hd] at hd'; injection hd' with h'; simp only [Prod.mk.injEq] at h'; exact h'.1.symm
-  subst e
-  obtain ⟨h1, h2, h3, _, _⟩ := hkeep hleak sub B (hsub.trans hp.sublist) hmeta hln hbbn
+  obtain ⟨m, st', lnM', bbnM', _, _, hkeep⟩ := C17.T17_7_accepted_trace_keeps_old_state h
+  obtain ⟨h1, h2, h3, _, _⟩ := hkeep sub B (hsub.trans hp.sublist) hmeta hln hbbn
   exact ⟨h1, h2, h3⟩
 
 /-- non-vacuity: the fresh store and the trace of its first sync (`Store/FrameFresh.lean`); prefix = the first two events,
@@ -35,7 +31,7 @@ example (c2 : ByteArray) (h2 : c2.size = PAGE) :
     wfImage B = wfImage img ∧ absImage B = absImage img ∧ absLeaves B = absLeaves img := by
   obtain ⟨stP, hacc⟩ := Fresh.accepted (zeros PAGE) (size_zeros _) (allZero_zeros _)
   intro img B
-  refine T4_10_pre_switchover_images_decode_to_old_state hacc (Fresh.hwalk _ (size_zeros _) (allZero_zeros _)) rfl
+  refine T4_10_pre_switchover_images_decode_to_old_state hacc
     ((preMeta Fresh.tr).take 2) (((preMeta Fresh.tr).take 2).drop 1) (List.take_prefix _ _) (List.drop_sublist _ _) B rfl ?_ ?_
   · have : writesOf "ln" (((preMeta Fresh.tr).take 2).drop 1) = [2] := by decide
     rw [this]
